@@ -99,7 +99,9 @@ class BleController(AbstractController):
             discovery = BleDiscovery(self, device, data, advertisement_data)
             logger.debug("BLE device for %s found, fulfilling futures", data.id)
             for future in futures:
-                future.set_result(discovery)
+                # The waiter may have timed out or been cancelled in this very iteration
+                if not future.done():
+                    future.set_result(discovery)
             futures.clear()
 
         if old_discovery:
@@ -150,6 +152,8 @@ class BleController(AbstractController):
             timeout,
         )
         future = asyncio.get_running_loop().create_future()
+        # Register the future so the detection callback can fulfil it
+        self._ble_futures.setdefault(device_id, []).append(future)
         try:
             async with asyncio_timeout(timeout):
                 return await future
